@@ -18,7 +18,6 @@ VARIABLES phase, pk, route, name, call, prior, recv
 vars == <<phase, pk, route, name, call, prior, recv>>
 
 MCZ == ndJsonDeserialize(IOEnv.PRIORS_Z_FILE)[1].z
-MCZT == ndJsonDeserialize(IOEnv.PRIORS_Z_FILE)[1].zt
 QS == {R(n - QShift, d) : n \in QNum, d \in QDen}
 ES == {e - EShift : e \in ENum}
 SS == {R(n, d) : n \in SNum, d \in SDen}
